@@ -161,6 +161,11 @@ def run(sym, prog, controls, lo=0, hi=1, dt=1, fixed=None, value_range=None, sta
     shares = {}
     for s in prog.shares:
         shares[s] = store.create(s)
+    state = getattr(prog, "state", {})      # shares written by the program itself: name -> initial value
+    for s, v in state.items():
+        shares[s] = store.create(s)
+        shares[s].value = v
+        env[s] = v
     world = floref.World(prog, env)
     stamp = 0
     out = []
@@ -187,6 +192,6 @@ def run(sym, prog, controls, lo=0, hi=1, dt=1, fixed=None, value_range=None, sta
         world.send(world.framers["m"], control)
         if world.assumed_away:
             sym.assume(False)
-        out.append((control, list(LOG), list(world.log), observe_real(house, main, prog), observe_ref(world), dict(env, __events__=list(world.events))))
+        out.append((control, list(LOG), list(world.log), observe_real(house, main, prog), observe_ref(world), dict(env, __events__=list(world.events), __store__=dict((s, shares[s].value) for s in state))))
         stamp = stamp + dt
     return text, out
